@@ -2277,6 +2277,33 @@ func ruleSIB5(w *World) []Ob {
 						if isNodePtr(rv.Type()) && !isNilConst(rv) {
 							v = rv
 						}
+						// a small typed result (parsedBlock{root: root}): the node stored into a field of the struct
+						// that is returned
+						var al *ssa.Alloc
+						if a, isA := rv.(*ssa.Alloc); isA {
+							al = a
+						} else if ld, isL := isLoad(rv); isL {
+							al, _ = ld.(*ssa.Alloc)
+						}
+						// the struct that is returned holds the cell in which the current root is recorded
+						if al != nil && rootCell0 != nil {
+							if fa0, isFA0 := rootCell0.(*ssa.FieldAddr); isFA0 && fa0.X == ssa.Value(al) {
+								handovers = append(handovers, in)
+							}
+						}
+						if al != nil && al.Referrers() != nil {
+							for _, r2 := range *al.Referrers() {
+								fa, isFA := r2.(*ssa.FieldAddr)
+								if !isFA || fa.Referrers() == nil {
+									continue
+								}
+								for _, r3 := range *fa.Referrers() {
+									if st, isSt := r3.(*ssa.Store); isSt && st.Addr == ssa.Value(fa) && isNodePtr(st.Val.Type()) && !isNilConst(st.Val) {
+										v = st.Val
+									}
+								}
+							}
+						}
 					}
 				}
 				if v == nil {
